@@ -24,3 +24,11 @@ package chain
 //@   modifies ghost.now, ghost.refBlock
 //@   ensures ghost.now >= old(ghost.now)
 //@   ensures result1 == nil ==> ghost.now >= result0 && ghost.refBlock == result0 && result0 <= 4611686018427387904
+
+// Addresses.Set: the set of elements of the list.
+//@ func Addresses.Set
+//@   property C22 C09 C10
+//@   ensures forall x Address :: (x in result) <==> (exists i int :: 0 <= i && i < len(a) && a[i] == x)
+//@   ensures forall i int :: 0 <= i && i < len(a) ==> a[i] in result
+//@   ensures len(a) >= 1 ==> a[0] in result
+//@   loop 1 invariant forall x Address :: (x in set) <==> (exists i int :: 0 <= i && i < rangeidx1 && a[i] == x)
